@@ -56,6 +56,14 @@ def alphabet(tier):
         for t in [(0, None, None), (1, None, "S2"), (2, "DB2", "S1")]:
             ops.append(("create_view",) + t)
             ops.append(("drop_view",) + t)
+    # DESCRIBE / SHOW / MERGE resolve names against the session context too
+    for t in [(0, None, None), (1, None, "S1"), (1, None, "S2"), (2, "DB2", "S1")]:
+        ops.append(("describe",) + t)
+        ops.append(("merge_insert",) + t)
+    ops.append(("show_schemas",))
+    ops.append(("show_tables_in_database",))
+    for s_ in SCHEMAS:
+        ops.append(("show_tables_in_schema", s_))
     for d in DBS + ("NOPE",):
         ops.append(("use_db", d))
     for s in SCHEMAS + ("NOPE",):
@@ -70,6 +78,12 @@ def alphabet(tier):
 
 def op_sql(op, tag):
     k = op[0]
+    if k == "show_schemas":
+        return "show terse schemas"
+    if k == "show_tables_in_database":
+        return "show terse tables in database"
+    if k == "show_tables_in_schema":
+        return f"show terse tables in schema {op[1].lower()}"
     if k == "create_db":
         return f"create database {op[1].lower()}"
     if k == "drop_db":
@@ -92,6 +106,10 @@ def op_sql(op, tag):
         return f"insert into {n} values ({tag})"
     if k == "select":
         return f"select x from {n} order by x"
+    if k == "describe":
+        return f"describe table {n}"
+    if k == "merge_insert":
+        return f"merge into {n} as tgt using (select {tag} as x) src on tgt.x = src.x when not matched then insert (x) values (src.x)"
     if k == "create_view":
         return f"create view {n.replace('t', 'v')} as select 1 as x"
     if k == "drop_view":
@@ -183,6 +201,20 @@ class Model:
                 return ("ok", None)
             self.ctx[c] = [d, s]
             return ("ok", None)
+        if k == "show_schemas":
+            if cd is None or cd not in self.cat:
+                return ("any",)  # without a current database: account-level listing, not demanded here
+            return ("ok_names", sorted(self.cat[cd]))
+        if k == "show_tables_in_database":
+            if cd is None or cd not in self.cat:
+                return ("any",)
+            return ("ok_names", sorted(f"{s_}.{n}" for s_, objs in self.cat[cd].items() for n, o in objs.items() if o[0] == "table"))
+        if k == "show_tables_in_schema":
+            if cd is None:
+                return ("any",)
+            if cd not in self.cat or op[1] not in self.cat[cd]:
+                return ("any",)  # SHOW ... IN <missing scope>: failure not demanded (see C07)
+            return ("ok_names", sorted(f"{op[1]}.{n}" for n, o in self.cat[cd][op[1]].items() if o[0] == "table"))
         if k == "use_db":
             if op[1] not in self.cat:
                 return ("err", None)
@@ -216,9 +248,11 @@ class Model:
             return ("ok", None)
         if "T" not in objs:
             return ("err", None)
-        if k == "insert":
+        if k in ("insert", "merge_insert"):
             objs["T"][1].append(tag)
             return ("ok", None)
+        if k == "describe":
+            return ("ok_names", ["X"])
         if k == "select":
             return ("ok", [(x,) for x in sorted(objs["T"][1])])
         raise AssertionError(op)
@@ -269,6 +303,9 @@ def build(init, hist):
     conns = []
     for a in (a0, a1):
         conns.append(fs.connect(database=a[0], schema=a[1]))
+        # ONE cursor per connection lives through the whole history (a cursor must not remember the context it was
+        # created in); the reporters use fresh cursors, so both kinds are exercised
+        conns[-1]._verif_cur = conns[-1].cursor()  # noqa: SLF001
         m.connect(*a)
     cur = conns[0].cursor()
     for s in setup:
@@ -289,7 +326,7 @@ def build(init, hist):
         tag += 1
         exp = m.step(c, op, tag)
         try:
-            conns[c].cursor().execute(op_sql(op, tag))
+            conns[c]._verif_cur.execute(op_sql(op, tag))  # noqa: SLF001
         except Exception:  # noqa: BLE001
             pass
         if exp[0] == "ok_free_schema":
@@ -345,9 +382,16 @@ def one_transition(init, hist, c, op, live, acc, tier):
     exp = m.step(c, op, tag)
     sql = op_sql(op, tag)
     try:
-        cur = conns[c].cursor()
+        cur = conns[c]._verif_cur  # noqa: SLF001
         cur.execute(sql)
-        got = ("ok", cur.fetchall() if op[0] == "select" else None)
+        rows = cur.fetchall() if op[0] in ("select", "describe", "show_schemas", "show_tables_in_database", "show_tables_in_schema") else None
+        if op[0] == "describe":
+            rows = [r[0] for r in rows]
+        elif op[0] == "show_schemas":
+            rows = sorted(r[1] for r in rows if str(r[1]).lower() != "information_schema")
+        elif op[0].startswith("show_tables"):
+            rows = sorted(f"{r[4]}.{r[1]}" for r in rows if not str(r[1]).lower().startswith("_fs_"))
+        got = ("ok", rows)
     except Exception as e:  # noqa: BLE001
         got = exc_info(e)
     if exp[0] == "ok_free_schema" and got[0] == "ok":
@@ -368,7 +412,7 @@ def judge(init, hist, c, op, acc, m, m_pre, exp, got, sql, pre_model_key, pre_ct
     rp = {"init": init, "history": hist, "conn": c, "op": op, "sql": sql}
     base = (
         f"op={op[0]}"
-        + (f",level={op[1]}" if isinstance(op[1], int) else (",qualified" if len(op) > 2 and op[1] else ""))
+        + (f",level={op[1]}" if len(op) > 1 and isinstance(op[1], int) else (",qualified" if len(op) > 2 and op[1] else ""))
         + f",ctx={ctx_kind(pre_ctx[c])}"
     )
     diverged = False
@@ -377,7 +421,14 @@ def judge(init, hist, c, op, acc, m, m_pre, exp, got, sql, pre_model_key, pre_ct
         acc.nontrivial((pre_model_key, c, op))
         acc.sample({"init": init, "history": hist, "conn": c, "sql": sql, "expected": exp, "observed": got, "reporters_after": post_rep}, cap=3)
     # (a) success / failure as the model says
-    if exp[0] == "err":
+    if exp[0] == "any":
+        pass
+    elif exp[0] == "ok_names":
+        if got[0] != "ok":
+            acc.violation("C03.must_succeed", base.split(",ctx=")[0] + f",exc={got[1].split('.')[-1]}", {"sql": sql, "ctx": pre_ctx[c], "got": got}, rp)
+        elif got[1] != exp[1]:
+            acc.violation("C03.resolution", base + ",listing", {"sql": sql, "expected": exp[1], "got": got[1], "ctx": pre_ctx[c]}, rp)
+    elif exp[0] == "err":
         if got[0] != "err":
             acc.violation("C03.must_fail", base, {"sql": sql, "ctx": pre_ctx[c], "got": got}, rp)
             diverged = True
